@@ -432,12 +432,10 @@ func (e *Engine) findIndicesAdaptiveAtWithState(haystack []byte, at int, state *
 		atomic.AddUint64(&e.stats.DFASearches, 1)
 		endPos := e.dfa.FindAt(state.dfaCache, haystack, at)
 		if endPos != -1 {
-			// Use estimated start for O(m) search
-			estimatedStart := at
-			if endPos > at+100 {
-				estimatedStart = endPos - 100
-			}
-			return state.pikevm.SearchAt(haystack, estimatedStart)
+			// DFA confirmed a match exists - use PikeVM for exact bounds.
+			// The match may start arbitrarily far before endPos, so the
+			// search must begin at the original position.
+			return state.pikevm.SearchAt(haystack, at)
 		}
 		size, capacity, _, _, _ := e.dfa.CacheStats(state.dfaCache)
 		if size >= int(capacity)*9/10 {
@@ -490,12 +488,10 @@ func (e *Engine) findIndicesAdaptive(haystack []byte) (int, int, bool) {
 		endPos := e.dfa.Find(state.dfaCache, haystack)
 		if endPos != -1 {
 			e.putSearchState(state)
-			// Use estimated start position for O(m) search instead of O(n)
-			estimatedStart := 0
-			if endPos > 100 {
-				estimatedStart = endPos - 100
-			}
-			return e.pikevm.SearchAt(haystack, estimatedStart)
+			// DFA confirmed a match exists - use PikeVM for exact bounds.
+			// The match may start arbitrarily far before endPos, so the
+			// search must begin at the start of the haystack.
+			return e.pikevm.Search(haystack)
 		}
 		size, capacity, _, _, _ := e.dfa.CacheStats(state.dfaCache)
 		e.putSearchState(state)
@@ -536,12 +532,10 @@ func (e *Engine) findIndicesAdaptiveAt(haystack []byte, at int) (int, int, bool)
 		endPos := e.dfa.FindAt(state.dfaCache, haystack, at)
 		if endPos != -1 {
 			e.putSearchState(state)
-			// Use estimated start for O(m) search
-			estimatedStart := at
-			if endPos > at+100 {
-				estimatedStart = endPos - 100
-			}
-			return e.pikevm.SearchAt(haystack, estimatedStart)
+			// DFA confirmed a match exists - use PikeVM for exact bounds.
+			// The match may start arbitrarily far before endPos, so the
+			// search must begin at the original position.
+			return e.pikevm.SearchAt(haystack, at)
 		}
 		size, capacity, _, _, _ := e.dfa.CacheStats(state.dfaCache)
 		e.putSearchState(state)
